@@ -10,7 +10,9 @@ Proof. exact dz_bomb_ratio_le. Qed.
 Theorem C07_buf_size : c_GZIP_BUF_SIZE = 8192.
 Proof. exact dz_buf_size. Qed.
 
-(* ---- bomb bound: EVERY external behaviour, every sequence of body calls, every configuration ---- *)
+(* ================================================================== (a) the bomb bound *)
+(* EVERY external behaviour (decoders, clock, hook), every sequence of body calls, every configuration:
+   delivered <= max(limit, 2048 * message_len) + largest block + one buffer + limit/(ratio-1). *)
 Theorem C07_bomb_bound :
   forall (OT : Type) (ask : OT -> dz_query -> dz_ans * OT) (c : dz_cfg) (maxchunk : Z) ce calls (o : OT),
     0 <= maxchunk -> dz_calls_ok maxchunk calls ->
@@ -20,6 +22,7 @@ Theorem C07_bomb_bound :
 Proof. exact dz_C07_bomb_bound. Qed.
 Print Assumptions C07_bomb_bound.
 
+(* limit of at most (ratio - 1) buffers, e.g. the default 1 MiB: two buffers on top of the largest block *)
 Theorem C07_bomb_bound_small_limit :
   forall (OT : Type) (ask : OT -> dz_query -> dz_ans * OT) (c : dz_cfg) (maxchunk : Z) ce calls (o : OT),
     0 <= maxchunk -> dz_calls_ok maxchunk calls ->
@@ -29,7 +32,14 @@ Theorem C07_bomb_bound_small_limit :
 Proof. exact dz_C07_bomb_bound_small_limit. Qed.
 Print Assumptions C07_bomb_bound_small_limit.
 
-(* ---- no more layers than configured ---- *)
+(* the property text's bound ("by more than one output buffer"; a passthrough block counts as one block) *)
+Definition C07_bomb_bound_tight_full : Prop :=
+  forall (c : dz_cfg) (maxchunk : Z) ce calls recs,
+    0 <= maxchunk -> dz_calls_ok maxchunk calls ->
+    let ob := dz_observe c ce calls recs in
+    Z.of_nat (length (dz_delivered ob)) <= Z.max (dc_bomb c) (2048 * ob_message ob) + Z.max 8192 maxchunk.
+
+(* ================================================================== (b) layer limits *)
 Theorem C07_layers_bounded :
   forall (OT : Type) (ask : OT -> dz_query -> dz_ans * OT) (c : dz_cfg) ce (w : dz_world OT),
     let t := dz_response_headers OT ask c ce w in
@@ -37,3 +47,177 @@ Theorem C07_layers_bounded :
     dz_nlzma (tx_chain OT t) <= Z.max 0 (dc_lzma_layers c).
 Proof. exact dz_C07_layers_bounded. Qed.
 Print Assumptions C07_layers_bounded.
+
+(* ================================================================== (c) the wrapper is faithful, relative to an inflate contract *)
+(* single gzip or deflate layer, quiet clock, accepting hook, payload within the bomb limit; the decoder is any state machine
+   (zst, zinit, zinflate) with an invariant zvalid satisfying the contract; every chunking of the stream *)
+Theorem C07_wrapper_faithful_partial :
+  forall (zst : Type) (zinit : Z -> zst) (zinflate : zst -> bytes -> nat -> zst * nat * bytes * Z)
+         (zvalid : zst -> bytes -> bytes -> Prop),
+    (forall z s p offered rest ao,
+        zvalid z s p -> s = offered ++ rest -> offered <> [] -> (0 < ao)%nat ->
+        let '(z', cn, out, rc) := zinflate z offered ao in
+        (cn <= length offered)%nat /\ (length out <= ao)%nat /\ exists p', p = out ++ p' /\
+        ((rc = c_dz_Z_OK /\ zvalid z' (skipn cn s) p' /\ (0 < cn + length out)%nat /\ skipn cn s <> []) \/
+         (rc = c_dz_Z_STREAM_END /\ skipn cn s = [] /\ p' = []))) ->
+    forall (c : dz_cfg) (t0 : Z * Z),
+      (forall k, dc_clock c k = t0) -> 0 <= dc_tlimit c -> (forall k, dc_hook c k = c_HTP_OK) ->
+      forall fmt, fmt = c_dz_COMPRESSION_GZIP \/ fmt = c_dz_COMPRESSION_DEFLATE ->
+      forall p, Z.of_nat (length p) <= dc_bomb c -> dc_enabled c = true ->
+      forall ce wb s chunks (o : zst),
+        (fmt = c_dz_COMPRESSION_GZIP /\ ce = s_gzip /\ wb = 15 + 32) \/ (fmt = c_dz_COMPRESSION_DEFLATE /\ ce = s_deflate /\ wb = -15) ->
+        zvalid (zinit wb) s p -> s <> [] -> concat chunks = s ->
+        Forall (fun ch => ch <> [] /\ Z.of_nat (length ch) <= c_dz_UINT32_MAX /\ (length ch + length p < dc_fuel c)%nat) chunks ->
+        dz_devs (tx_w zst (fst (dz_run zst (zask zst zinit zinflate) c (Some ce) (map (fun ch => (0, Some ch)) chunks ++ [(0, None)]) o))) = p.
+Proof. exact dz_wrapper_faithful. Qed.
+Print Assumptions C07_wrapper_faithful_partial.
+
+(* the contract hypothesis is satisfiable: a toy format (|windowBits| bytes verbatim + one trailer byte) *)
+Theorem C07_contract_nonvacuous : forall z s p offered rest ao,
+  dz_toy_valid z s p -> s = offered ++ rest -> offered <> [] -> (0 < ao)%nat ->
+  let '(z', cn, out, rc) := dz_toy_inflate z offered ao in
+  (cn <= length offered)%nat /\ (length out <= ao)%nat /\ exists p', p = out ++ p' /\
+  ((rc = c_dz_Z_OK /\ dz_toy_valid z' (skipn cn s) p' /\ (0 < cn + length out)%nat /\ skipn cn s <> []) \/
+   (rc = c_dz_Z_STREAM_END /\ skipn cn s = [] /\ p' = [])).
+Proof. exact dz_toy_contract. Qed.
+
+Definition ex_cfg (bomb : Z) : dz_cfg :=
+  mk_dz_cfg true bomb 2 1 1048576 100000 64 (fun _ => (0, 0)) (fun _ => c_HTP_OK).
+Definition ex_payload15 : bytes := map N.of_nat (seq 1 15).
+
+(* ... and the theorem's premises hold for it: a "deflate" body of 15 payload bytes + trailer in three chunks *)
+Example C07_wrapper_faithful_example :
+  dz_devs (tx_w dz_toy (fst (dz_run dz_toy (zask dz_toy dz_toy_init dz_toy_inflate) (ex_cfg 1000) (Some s_deflate)
+     (map (fun ch => (0, Some ch)) [firstn 4 ex_payload15; skipn 4 ex_payload15; [99%N]] ++ [(0, None)]) ToyDone)))
+  = ex_payload15.
+Proof.
+  apply (C07_wrapper_faithful_partial dz_toy dz_toy_init dz_toy_inflate dz_toy_valid dz_toy_contract (ex_cfg 1000) (0, 0))
+    with (fmt := c_dz_COMPRESSION_DEFLATE) (wb := -15) (s := ex_payload15 ++ [99%N]); try reflexivity.
+  - vm_compute. discriminate.
+  - right. reflexivity.
+  - vm_compute. discriminate.
+  - right. repeat split; reflexivity.
+  - split; [reflexivity|]. exists 99%N. reflexivity.
+  - discriminate.
+  - repeat constructor; try discriminate; vm_compute; try discriminate; lia.
+Qed.
+
+(* the full statement: every deflate-/gzip-coded body, every chunking, as recorded on the real decoders. Refuted twice below. *)
+Definition C07_chunking_independent_full : Prop :=
+  forall c ce calls1 calls2 recs1 recs2,
+    concat (map (fun x => match snd x with Some b => b | None => [] end) calls1) =
+    concat (map (fun x => match snd x with Some b => b | None => [] end) calls2) ->
+    ob_desync (dz_observe c ce calls1 recs1) = None -> ob_desync (dz_observe c ce calls2 recs2) = None ->
+    dz_delivered (dz_observe c ce calls1 recs1) = dz_delivered (dz_observe c ce calls2 recs2).
+
+(* ================================================================== (d) data no decoder accepts is passed through *)
+Theorem C07_passthrough_lossless_partial :
+  forall (OT : Type) (ask : OT -> dz_query -> dz_ans * OT),
+    (forall o inp ao, da_rc (fst (ask o (QInflate inp ao))) = c_dz_Z_DATA_ERROR /\ da_out (fst (ask o (QInflate inp ao))) = []) ->
+    (forall o wb, da_rc (fst (ask o (QInit wb))) = c_dz_Z_OK) ->
+    forall (c : dz_cfg) (t0 : Z * Z),
+      (forall k, dc_clock c k = t0) -> 0 <= dc_tlimit c -> (forall k, dc_hook c k = c_HTP_OK) -> (5 <= dc_fuel c)%nat ->
+      forall fmt, dz_gd fmt -> dc_enabled c = true ->
+      forall ce b ch' chunks (o : OT),
+        (fmt = c_dz_COMPRESSION_GZIP /\ ce = s_gzip) \/ (fmt = c_dz_COMPRESSION_DEFLATE /\ ce = s_deflate) ->
+        dz_probe (b :: ch') = O -> Z.of_nat (length (b :: ch')) <= c_dz_UINT32_MAX ->
+        dz_devs (tx_w OT (fst (dz_run OT ask c (Some ce) (map (fun ch => (0, Some ch)) ((b :: ch') :: chunks) ++ [(0, None)]) o)))
+        = concat ((b :: ch') :: chunks).
+Proof. exact dz_passthrough_lossless. Qed.
+Print Assumptions C07_passthrough_lossless_partial.
+
+Example C07_passthrough_example :
+  dz_devs (tx_w unit (fst (dz_run unit dz_reject_ask (ex_cfg 10) (Some s_gzip)
+     (map (fun ch => (0, Some ch)) [[104;105]%N; [33]%N; [10;10;10]%N] ++ [(0, None)]) tt))) = [104;105;33;10;10;10]%N.
+Proof. vm_compute. reflexivity. Qed.
+
+(* the full statement of the property text ("not valid for the announced coding => passed through") does not hold: a body that is
+   not valid but is a prefix of something valid is swallowed (recorded on the library: Content-Encoding: gzip, body "a") *)
+Example C07_passthrough_refuted_short :
+  let ob := dz_observe (ex_cfg 100000000) (Some s_gzip) [(0, Some [97%N]); (0, None); (0, None)]
+                       [RInit 47 0; RInflate 1 8192 [97%N] 1 0 []; REnd] in
+  ob_desync ob = None /\ ob_left ob = O /\ dz_delivered ob = [].
+Proof. vm_compute. repeat split; reflexivity. Qed.
+
+(* ================================================================== (e) F12: restart after earlier chunks were consumed *)
+(* Recorded on the library (zlib 1.3): Content-Encoding: deflate, body = zlib stream of "hello, world\n" x 8 (24 bytes).
+   Delivered whole it is decoded (two restarts inside the first call); cut after 3 bytes, the raw-deflate decoder swallows the
+   first piece, fails on the second, and the restarts only see the second piece: 21 raw bytes come out instead of 104. *)
+Definition f12_stream : bytes := [120;156;203;72;205;201;201;215;81;40;207;47;202;73;225;202;160;29;7;0;143;57;36;145]%N.
+Definition f12_payload : bytes := concat (repeat [104;101;108;108;111;44;32;119;111;114;108;100;10]%N 8).
+Definition f12_recs_split : list dz_rec :=
+  [RInit (-15) 0; RInflate 3 8192 [120;156;203]%N 3 0 [];
+   RInflate 21 8192 [72;205;201;201]%N 2 (-3) []; REnd; RInit (-15) 0;
+   RInflate 21 8192 [72;205;201;201]%N 5 (-3) []; REnd; RInit 47 0;
+   RInflate 21 8192 [72;205;201;201]%N 2 (-3) []; REnd; RInit (-15) 0;
+   RInflate 21 8192 [72;205;201;201]%N 5 (-3) []; REnd].
+Definition f12_recs_whole : list dz_rec :=
+  [RInit (-15) 0; RInflate 24 8192 [120;156;203;72]%N 5 (-3) []; REnd; RInit (-15) 0;
+   RInflate 24 8192 [120;156;203;72]%N 5 (-3) []; REnd; RInit 47 0;
+   RInflate 24 8192 [120;156;203;72]%N 24 1 f12_payload; REnd].
+
+Example C07_refuted_F12 :
+  let split := dz_observe (ex_cfg 100000000) (Some s_deflate) [(0, Some (firstn 3 f12_stream)); (0, Some (skipn 3 f12_stream)); (0, None); (0, None)] f12_recs_split in
+  let whole := dz_observe (ex_cfg 100000000) (Some s_deflate) [(0, Some f12_stream); (0, None); (0, None)] f12_recs_whole in
+  ob_desync split = None /\ ob_left split = O /\ ob_desync whole = None /\ ob_left whole = O /\
+  dz_delivered whole = f12_payload /\ ob_late whole = false /\
+  dz_delivered split = skipn 3 f12_stream /\ ob_late split = true /\ ob_trace split = true /\
+  dz_delivered split <> dz_delivered whole.
+Proof. vm_compute. repeat split; try reflexivity. discriminate. Qed.
+
+Theorem C07_chunking_independent_refuted : ~ C07_chunking_independent_full.
+Proof.
+  intros H.
+  specialize (H (ex_cfg 100000000) (Some s_deflate)
+                [(0, Some f12_stream); (0, None); (0, None)]
+                [(0, Some (firstn 3 f12_stream)); (0, Some (skipn 3 f12_stream)); (0, None); (0, None)]
+                f12_recs_whole f12_recs_split eq_refl eq_refl eq_refl).
+  vm_compute in H. discriminate H.
+Qed.
+
+(* F21 (found while stating the contract): a raw deflate stream whose last input byte is consumed while the output buffer is full.
+   Recorded on the library: Content-Encoding: deflate, body = raw deflate of 8195 zero bytes (24 bytes), delivered whole:
+   inflate returns Z_OK with all input consumed and 8192 bytes produced; the loop ends (avail_in == 0), the end-of-stream call
+   flushes the buffer and never calls inflate again: the last 3 bytes stay inside zlib. *)
+Example C07_refuted_tail_loss :
+  let ob := dz_observe (ex_cfg 100000000) (Some s_deflate)
+              [(0, Some [237;193;1;13;0;0;0;194;160;247;79;109;15;7;20;0;0;0;0;0;0;0;112;96]%N); (0, None); (0, None)]
+              [RInit (-15) 0; RInflate 24 8192 [237;193;1;13]%N 24 0 (repeat 0%N (Z.to_nat 8192)); REnd] in
+  ob_desync ob = None /\ ob_left ob = O /\ ob_trace ob = false /\ dz_delivered ob = repeat 0%N (Z.to_nat 8192).
+Proof. vm_compute. repeat split; reflexivity. Qed.
+
+(* ================================================================== the tight bound does not hold for every external behaviour *)
+(* (1) a decoder error other than Z_DATA_ERROR with output in the buffer: the raw fallback is refused by the bomb test and the
+       stale buffer still comes out at the end of the stream: 16385 > 8192 + 8192 *)
+Example C07_bomb_bound_tight_refuted_stale :
+  let ob := dz_observe (ex_cfg 8192) (Some s_gzip) [(0, Some [1;2]%N); (0, None)]
+              [RInit 47 0; RInflate 2 8192 [1;2]%N 0 0 (repeat 0%N (Z.to_nat 8192)); RInflate 2 8192 [1;2]%N 0 2 (repeat 0%N (Z.to_nat 8191)); REnd; RInit 47 (-2)] in
+  ob_desync ob = None /\ ob_left ob = O /\
+  Z.of_nat (length (dz_delivered ob)) = 16385 /\ Z.max 8192 (2048 * ob_message ob) + Z.max 8192 2 = 16384.
+Proof. vm_compute. repeat split; reflexivity. Qed.
+
+Theorem C07_bomb_bound_tight_refuted : ~ C07_bomb_bound_tight_full.
+Proof.
+  intros H.
+  specialize (H (ex_cfg 8192) 2 (Some s_gzip) [(0, Some [1;2]%N); (0, None)]
+                [RInit 47 0; RInflate 2 8192 [1;2]%N 0 0 (repeat 0%N (Z.to_nat 8192)); RInflate 2 8192 [1;2]%N 0 2 (repeat 0%N (Z.to_nat 8191)); REnd; RInit 47 (-2)]).
+  assert (H1 : 0 <= 2) by lia.
+  assert (H2 : dz_calls_ok 2 [(0, Some [1;2]%N); (0, None)]).
+  { repeat constructor; cbn; lia. }
+  specialize (H H1 H2). vm_compute in H. apply H. reflexivity.
+Qed.
+
+(* (2) the clock test switches the first layer to passthrough AFTER the bomb test has refused a block: the passthrough blocks
+       are delivered on top (clock advancing 1 s per call, 1-byte calls): 16387 > 8192 + 8192 *)
+Example C07_bomb_bound_tight_refuted_clock :
+  let c := mk_dz_cfg true 8192 2 1 1048576 100000 64 (fun k => (Z.of_nat k, 0)) (fun _ => c_HTP_OK) in
+  let ob := dz_observe c (Some s_gzip) [(0, Some [1]%N); (0, Some [2]%N); (0, Some [3]%N); (0, Some [4]%N); (0, None)]
+              [RInit 47 0; RInflate 1 8192 [1]%N 0 0 (repeat 0%N (Z.to_nat 8192)); RInflate 1 8192 [1]%N 0 0 (repeat 0%N (Z.to_nat 8192)); REnd] in
+  ob_desync ob = None /\ ob_left ob = O /\
+  Z.of_nat (length (dz_delivered ob)) = 16387 /\ Z.max 8192 (2048 * ob_message ob) + Z.max 8192 1 = 16384.
+Proof. vm_compute. repeat split; reflexivity. Qed.
+(* (3) passthrough after a bomb prefix, bomb limit above (ratio-1) buffers: exhibited on the LIBRARY (known finding F22, lib/c07.py) *)
+
+(* ---- non-vacuity of the premises of (a) ---- *)
+Example C07_calls_ok_example : dz_calls_ok 3 [(0, Some [1;2;3]%N); (7, Some [4]%N); (0, None)].
+Proof. repeat constructor; cbn; lia. Qed.
